@@ -169,6 +169,49 @@ def p_c08(facts, rep, tier):
     rep.trust("rustc MIR (nightly, mir-opt-level=0)", "rules/vguard.py tables")
 
 
+def p_c15(facts, rep, tier):
+    import lockgraph
+    import strands
+    import witness
+
+    rep.explanation = (
+        "C15 (structure): L1 - lock classes are the lock-typed fields of crate nomt (aliases through Arc clones unified) plus the pseudo-lock "
+        "RT (read transactions: shared = a live ReadTransactionInner, exclusive = block_until_zero); guards are tracked through locals, moves, "
+        "holder structs (Session, SharedSyncController, SyncAllocator, PageLoader, rw-pass guards ...) and parameters; the held->acquired "
+        "relation, closed over sync calls, sync closures and joined tasks, has no cycle in which every acquisition conflicts with the next "
+        "hold, and no same-class nesting outside the reviewed table; L2 - Store::commit and Rollback::{commit,commit_nonblocking,truncate} are "
+        "called only with the access write guard held; L3 - take_global_guard=false only in Nomt::rollback under the write guard and "
+        "FinishedSession.take_global_guard = access_guard.is_some(); L5 - root check and root store each under Nomt.shared and both under one "
+        "access write-guard acquisition; L6 - begin_session takes the access read guard (iff take_global_guard), stores it in the Session and "
+        "takes it before anything that opens a read transaction; L7 - block_until_zero precedes take_staged_changeset/update, add_one precedes "
+        "the snapshot. Observed values, channel/condvar liveness and fairness are not decided."
+    )
+    st = strands.Strands(facts)
+    M, n1, npairs = lockgraph.run(facts, rep, st)
+    n2 = lockgraph.l2(facts, rep, M)
+    n3 = lockgraph.l3(facts, rep, M)
+    n5 = lockgraph.l5(facts, rep, M)
+    n6 = lockgraph.l6(facts, rep, M)
+    n7 = lockgraph.l7(facts, rep, M)
+    nw = witness.run(rep, ["c15"])
+    rep.floor("lock classes", len(rep.extra["lock_classes"]), 24)
+    rep.floor("acquisition sites", rep.extra["acquisition_sites"], 65)
+    rep.floor("held->acquired pairs", npairs, 60)
+    rep.floor("L2 mutator call sites", n2, 9)
+    rep.floor("L3 obligations", n3, 3)
+    rep.floor("L5 obligations", n5, 16)
+    rep.floor("L6 obligations", n6, 1)
+    rep.floor("L7 obligations", n7, 5)
+    rep.floor("C15 witness doctests", nw, 5)
+    rep.assume(
+        "a lock is identified by the field that stores it (fields initialised from one another are unified); locks in containers are one class",
+        "guard lifetimes follow MIR moves/drops; guards reached only through references are attributed to the owner",
+        "path feasibility is ignored: a held->acquired pair on an infeasible path can only make the check stricter",
+        "tasks spawned while a lock is held run under nothing but what they acquire themselves, unless they are joined under that lock",
+    )
+    rep.trust("rustc MIR (nightly, mir-opt-level=0)", "rules/lockgraph.py SAME_CLASS_OK / ROLLBACK_COND tables", "parking_lot lock semantics")
+
+
 _CTX = {}
 
 
@@ -277,6 +320,7 @@ PROPS = {
     "C11": p_c11,
     "C12": p_c12,
     "C14": p_c14,
+    "C15": p_c15,
     "C17": p_c17,
     "C18": p_c18,
     "C20": p_c20,
